@@ -13,6 +13,8 @@ def run(rep, fb, tier):
     forth.rule_forth_tables(rep, fb)
     forth.rule_forth_semantics(rep, fb)
     forth.rule_forth_output(rep, fb)
+    from ..rules import methodrules
+    methodrules.rule_forth_output_alias(rep, fb)
     forth.rule_forth_input(rep, fb)
     forth.rule_forth_width(rep, fb)
     rep.units = fb.units
